@@ -553,15 +553,9 @@ func ruleAppOwn(p *Prog, r *RuleResult) {
 			if !ok {
 				return
 			}
-			// task type: a struct of the app package with a method that the workers run
-			var run *ssa.Function
-			for _, mn := range []string{"call", "Call", "run", "Run"} {
-				if m := p.MethodOpt("app", tn.Obj().Name(), mn); m != nil {
-					run = m
-					break
-				}
-			}
-			if run == nil {
+			// task type: a struct of the app package with methods (what the workers run for a queued value)
+			runs := methodsOfNamed(p, tn)
+			if len(runs) == 0 {
 				return
 			}
 			ntask++
@@ -623,7 +617,17 @@ func ruleAppOwn(p *Prog, r *RuleResult) {
 				fv := st.Field(fi)
 				// is the field written through anywhere in what a worker runs for the task?
 				var at ssa.Instruction
-				for _, g := range append([]*ssa.Function{run}, p.helperClosure(run)...) {
+				var scope []*ssa.Function
+				seenG := map[*ssa.Function]bool{}
+				for _, run := range runs {
+					for _, g := range append([]*ssa.Function{run}, p.helperClosure(run)...) {
+						if !seenG[g] {
+							seenG[g] = true
+							scope = append(scope, g)
+						}
+					}
+				}
+				for _, g := range scope {
 					eachInstr(g, func(j ssa.Instruction) {
 						u, ok := j.(*ssa.UnOp)
 						if !ok || u.Op != token.MUL || fieldVarOfLoad(u) != fv {
@@ -635,7 +639,7 @@ func ruleAppOwn(p *Prog, r *RuleResult) {
 					})
 				}
 				if at != nil {
-					r.fail(fmt.Sprintf("%s#shared.%s", key, fv.Name()), p.IPos(at), fmt.Sprintf("slice field %s of %s is filled from a value created outside the per-file loop, so all queued tasks share one backing array, and %s writes into it: files processed concurrently overwrite each other's data between read and write – outputs that do not decode to their sources, with exit status 0", fv.Name(), tn.Obj().Name(), p.FnName(run)))
+					r.fail(fmt.Sprintf("%s#shared.%s", key, fv.Name()), p.IPos(at), fmt.Sprintf("slice field %s of %s is filled from a value created outside the per-file loop, so all queued tasks share one backing array, and %s writes into it: files processed concurrently overwrite each other's data between read and write – outputs that do not decode to their sources, with exit status 0", fv.Name(), tn.Obj().Name(), p.FnName(at.Parent())))
 				} else {
 					r.ok(fmt.Sprintf("%s: slice field %s is shared between tasks but only read by them", key, fv.Name()), p.IPos(snd))
 				}
@@ -847,8 +851,31 @@ func rulePackWidth(p *Prog, r *RuleResult) {
 			}
 			bound, ok := upperBoundAt(p, g, n, i.Block(), 0)
 			if !ok {
-				r.note("%s at %s: no constant bound of the loop limit is established on the way to this routine (NOT DECIDED)", key, p.IPos(i))
-				return
+				// the limit is a parameter that only some call sites bound: a call site whose bound is too large is a
+				// violation by itself, whatever the others do
+				if par, isPar := n.(*ssa.Parameter); isPar {
+					idx := -1
+					for k2, q := range g.Params {
+						if q == par {
+							idx = k2
+						}
+					}
+					for _, cf := range p.ModFns {
+						eachInstr(cf, func(j ssa.Instruction) {
+							c := callOf(j)
+							if c == nil || c.IsInvoke() || c.StaticCallee() != g || idx < 0 || idx >= len(c.Args) {
+								return
+							}
+							if kb, okb := upperBoundAt(p, cf, c.Args[idx], j.Block(), 1); okb && kb+off > (int64(1)<<31-1)>>uint(kbits) && !ok {
+								bound, ok = kb, true
+							}
+						})
+					}
+				}
+				if !ok {
+					r.note("%s at %s: no constant bound of the loop limit is established on the way to this routine (NOT DECIDED)", key, p.IPos(i))
+					return
+				}
 			}
 			maxIdx := bound + off
 			if maxIdx < 0 {
@@ -1242,6 +1269,21 @@ func init() {
 func ruleAppCtx(p *Prog, r *RuleResult) {
 	ntask := 0
 	var k keyer
+	queuedTypes := map[*types.Named]bool{}
+	for _, f := range p.ModFns {
+		if p.Rel(f) != "app" {
+			continue
+		}
+		eachInstr(f, func(i ssa.Instruction) {
+			if mc, ok := i.(*ssa.MakeChan); ok {
+				if ch, ok := mc.Type().Underlying().(*types.Chan); ok {
+					if n := namedOf(ch.Elem()); n != nil {
+						queuedTypes[n] = true
+					}
+				}
+			}
+		})
+	}
 	for _, f := range p.ModFns {
 		if p.Rel(f) != "app" {
 			continue
@@ -1272,6 +1314,30 @@ func ruleAppCtx(p *Prog, r *RuleResult) {
 				}
 			}
 		})
+		// an option map built by a same-package helper (ctx := this.buildContext()): the constant keys the helper sets
+		eachInstr(f, func(i ssa.Instruction) {
+			hc, ok := i.(*ssa.Call)
+			if !ok {
+				return
+			}
+			h := hc.Call.StaticCallee()
+			if h == nil || h.Blocks == nil || FnPkg(h) != FnPkg(f) {
+				return
+			}
+			if _, isMap := hc.Type().Underlying().(*types.Map); !isMap {
+				return
+			}
+			eachInstr(h, func(j ssa.Instruction) {
+				if mu, ok := j.(*ssa.MapUpdate); ok {
+					if key, ok := ctxKey(mu.Map, mu.Key); ok {
+						if keys[hc] == nil {
+							keys[hc] = map[string]bool{}
+						}
+						keys[hc][key] = true
+					}
+				}
+			})
+		})
 		// every construction of a task value (a struct of package app that has a call/run method) with a map field
 		eachInstr(f, func(i ssa.Instruction) {
 			sto, ok := i.(*ssa.Store)
@@ -1296,13 +1362,8 @@ func ruleAppCtx(p *Prog, r *RuleResult) {
 			if _, isMap := st.Field(fa.Field).Type().Underlying().(*types.Map); !isMap {
 				return
 			}
-			isTask := false
-			for _, mn := range []string{"call", "Call", "run", "Run"} {
-				if p.MethodOpt("app", tn.Obj().Name(), mn) != nil {
-					isTask = true
-				}
-			}
-			if !isTask {
+			// a task type: a struct with methods that is queued on a channel somewhere in the package
+			if len(methodsOfNamed(p, tn)) == 0 || !queuedTypes[tn] {
 				return
 			}
 			ntask++
@@ -2343,4 +2404,15 @@ func ruleHintReader(p *Prog, r *RuleResult) {
 	}
 	r.ok(fmt.Sprintf("%d functions of the read path scanned, %d comparisons with the recorded original size", nfn, ntest), "-")
 	r.floor(2, nfn, "functions of the read path")
+}
+
+// methodsOfNamed: the source methods declared on T or *T.
+func methodsOfNamed(p *Prog, tn *types.Named) []*ssa.Function {
+	var out []*ssa.Function
+	for _, f := range p.ModFns {
+		if f.Signature.Recv() != nil && f.Parent() == nil && f.Blocks != nil && namedOf(f.Signature.Recv().Type()) == tn {
+			out = append(out, f)
+		}
+	}
+	return out
 }
